@@ -143,7 +143,7 @@ def _mkblock(name, typ, numb, abstract, hostport, path=None):
     return l
 
 
-def body_override(cn: bool, ct: int, cnum: bool, cab: bool, ln: bool, lt: int, lnum: bool, lab: bool, lhp: bool, sidecar: bool, addlink: bool) -> bool:
+def body_override(cn: bool, ct: int, cnum: bool, cab: bool, ln: bool, lt: int, lnum: bool, lab: bool, lhp: bool, sidecar: bool, addlink: bool, uselink: bool = True) -> bool:
     from pygopherd.handlers import UMN
 
     cfg = dl.config({("handlers.UMN.UMNDirHandler", "extstrip"): "none"})
@@ -153,8 +153,12 @@ def body_override(cn: bool, ct: int, cnum: bool, cab: bool, ln: bool, lt: int, l
     added = ["Name=Added", "Type=1", "Path=/added", "Host=+", "Port=+", "Numb=1"]
     if addlink:
         links += ["\n"] + [l + "\n" for l in added]
-    names = [".Links", "a.txt", "b.txt"] + ([".cap"] if capb else []) + (["a.txt.abstract"] if sidecar else [])
-    nodes = {"/": mv.Dir(["d"]), "/d": mv.Dir(names), "/d/a.txt": mv.File(b"a\n"), "/d/b.txt": mv.File(b"b\n"), "/d/.Links": mv.File(links)}
+    if not uselink:
+        addlink = False
+    names = ([".Links"] if uselink else []) + ["a.txt", "b.txt"] + ([".cap"] if capb else []) + (["a.txt.abstract"] if sidecar else [])
+    nodes = {"/": mv.Dir(["d"]), "/d": mv.Dir(names), "/d/a.txt": mv.File(b"a\n"), "/d/b.txt": mv.File(b"b\n")}
+    if uselink:
+        nodes["/d/.Links"] = mv.File(links)
     if capb:
         nodes["/d/.cap"] = mv.Dir(["a.txt"])
         nodes["/d/.cap/a.txt"] = mv.File([l + "\n" for l in capb])
@@ -183,7 +187,9 @@ def body_override(cn: bool, ct: int, cnum: bool, cab: bool, ln: bool, lt: int, l
             hidden = True
         else:
             a = ref.merge(a, cl)
-    if not hidden:
+    if not uselink:
+        pass
+    elif not hidden:
         ll = ref.parse_block(lnkb, "/d")
         if ll.type == "X":
             hidden = True
@@ -265,8 +271,8 @@ def obligations(tier, seed):
     for ct in range(4):
         for lt in range(3):
             obs.append(Ob(id="C08.3-override[cap.Type=%s,link.Type=%s]" % (TYPES[ct], TYPES[lt]), body="harness.C08:body_override",
-                          sig="cn: bool, ct: int, cnum: bool, cab: bool, ln: bool, lt: int, lnum: bool, lab: bool, lhp: bool, sidecar: bool, addlink: bool",
-                          pre=["ct == %d" % ct, "lt == %d" % lt] + (["lhp == False", "addlink == True"] if tier == "quick" else []), timeout=300 if tier == "quick" else 1200,
+                          sig="cn: bool, ct: int, cnum: bool, cab: bool, ln: bool, lt: int, lnum: bool, lab: bool, lhp: bool, sidecar: bool, addlink: bool, uselink: bool",
+                          pre=["ct == %d" % ct, "lt == %d" % lt] + (["lhp == False", "addlink == uselink"] if tier == "quick" else []), timeout=300 if tier == "quick" else 1200,
                           desc="a.txt with an optional .abstract sidecar, a .cap/a.txt block and a `Path=./a.txt` block in .Links, each with a symbolic subset of "
                                "Name/Numb/Abstract(/Host+Port) and the given Type, plus an added link: only the set fields change, X/- hides, the added link is appended, "
                                "the order is the documented one",
